@@ -45,8 +45,7 @@ Print Assumptions C19_law_of_cosines_f32_refuted.
 
 (* ---- Linear::update, for EVERY profile with finite gain >= 0 and 0 <= offset <= 32767 and EVERY
    finite error: no panic, a finite value, equal to +-lu_real; lu_real is monotone in the error
-   (w.r.t. the order with -0.0 < +0.0), has the sign of the error and stays within the i16 range
-   (by at most one unit below) ---- *)
+   (w.r.t. the order with -0.0 < +0.0), has the sign of the error and stays within [-32768, 32768] ---- *)
 Theorem C19_linear_update : forall p, lin_ok p -> forall e : f32, is_finite e = true ->
   exists v, linear_update p e = Ok v /\ is_finite v = true
             /\ R32 v = ((if l_inverse p then 1 else -1) * lu_real p e)%R.
@@ -57,7 +56,7 @@ Theorem C19_linear_update_monotone : forall p, lin_ok p -> forall e1 e2 : f32,
 Proof. exact lu_real_mono. Qed.
 Print Assumptions C19_linear_update_monotone.
 Theorem C19_linear_update_sign_and_range : forall p, lin_ok p -> forall e : f32, is_finite e = true ->
-  (Bsign e = false -> (0 <= lu_real p e <= 32768)%R) /\ (Bsign e = true -> (-32769 <= lu_real p e <= 0)%R).
+  (Bsign e = false -> (0 <= lu_real p e <= 32768)%R) /\ (Bsign e = true -> (-32768 <= lu_real p e <= 0)%R).
 Proof. exact lu_sign_range. Qed.
 Print Assumptions C19_linear_update_sign_and_range.
 
